@@ -174,6 +174,59 @@ Theorem C04_managed_variant : forall scale i rnd now,
 Proof. exact managed_decide_eq. Qed.
 Print Assumptions C04_managed_variant.
 
+(** ** how the renewal info a certificate carries is produced (Config.updateARI, issuer branch):
+    [refresh_ari old fresh] — the CA's answer replaces the old info; the old selected time is put
+    back exactly when the window is unchanged.  [ari_wfb a]: the selected time is unset or lies
+    inside the window it comes with. *)
+
+(** the refreshed info carries the CA's window, and its selected time is the old one iff the window
+    is the same (and there was one), else the CA's (unset => improvised inside the NEW window) *)
+Theorem C04_refreshed_info_selected_time_kept_iff_same_window : forall old fresh,
+  wstart (refresh_ari old fresh) = wstart fresh /\ wend (refresh_ari old fresh) = wend fresh /\
+  sel (refresh_ari old fresh) = if same_window fresh old && has_sel old then sel old else sel fresh.
+Proof. intros old fresh. destruct (refresh_window old fresh). repeat split; try assumption. apply refresh_sel. Qed.
+Print Assumptions C04_refreshed_info_selected_time_kept_iff_same_window.
+
+(** refreshing preserves well-formedness: no selected time ever travels to another window *)
+Theorem C04_refreshed_info_well_formed : forall old fresh,
+  ari_wfb old = true -> ari_wfb fresh = true -> ari_wfb (refresh_ari old fresh) = true.
+Proof. exact refresh_wf. Qed.
+Print Assumptions C04_refreshed_info_well_formed.
+
+(** the run-time monitor for refreshed info holds of the model *)
+Theorem C04_refresh_ok_of_model : forall old fresh, refresh_ok old fresh (refresh_ari old fresh) = true.
+Proof. exact refresh_ok_of_model. Qed.
+Print Assumptions C04_refresh_ok_of_model.
+
+(** well-formed info whose window starts at least one interval from now never triggers an immediate
+    renewal (selected time stored or improvised), unless a validity-based rule fires *)
+Theorem C04_well_formed_future_window_never_immediate : forall scale, scale_spec scale ->
+  forall i rnd now ws we, wf i -> admissible i rnd ->
+  ari_wfb (ari i) = true -> wstart (ari i) = Some ws -> wend (ari i) = Some we ->
+  now + interval i <= ws ->
+  let n := fst (eff_ratio (cfg_ratio i)) in let d := snd (eff_ratio (cfg_ratio i)) in
+  d * remaining i now >= n * lifetime i + d * eps (lifetime i) ->
+  20 * remaining i now >= lifetime i + 20 * eps (lifetime i) ->
+  remaining i now >= 5 * interval i ->
+  decide scale i rnd now = Wait.
+Proof. exact wf_future_window_never_immediate. Qed.
+Print Assumptions C04_well_formed_future_window_never_immediate.
+
+(** ... in particular the info updateARI leaves behind when the CA moves the window into the future,
+    whatever the old selected time was *)
+Theorem C04_refreshed_future_window_never_immediate : forall scale, scale_spec scale ->
+  forall i old fresh rnd now ws we, wf i ->
+  ari_wfb old = true -> ari_wfb fresh = true -> wstart fresh = Some ws -> wend fresh = Some we ->
+  admissible (with_ari i (refresh_ari old fresh)) rnd ->
+  now + interval i <= ws ->
+  let n := fst (eff_ratio (cfg_ratio i)) in let d := snd (eff_ratio (cfg_ratio i)) in
+  d * remaining i now >= n * lifetime i + d * eps (lifetime i) ->
+  20 * remaining i now >= lifetime i + 20 * eps (lifetime i) ->
+  remaining i now >= 5 * interval i ->
+  decide scale (with_ari i (refresh_ari old fresh)) rnd now = Wait.
+Proof. exact refreshed_future_window_never_immediate. Qed.
+Print Assumptions C04_refreshed_future_window_never_immediate.
+
 (** ** non-vacuity *)
 
 (** the hypothesis on [scale] is satisfiable *)
@@ -269,3 +322,24 @@ Example C04_monotone_needs_fixed_draw :
   exists rnd rnd' now now', admissible flip_inputs rnd /\ admissible flip_inputs rnd' /\ now <= now' /\
     decide scale_floor flip_inputs rnd now = Renew /\ decide scale_floor flip_inputs rnd' now' = Wait.
 Proof. exact monotone_fails_across_draws. Qed.
+(* updateARI: old info {selected day 8, window day 7..9}, the CA moves the window to day 30..32; day 10 of 90.
+   Hypotheses of C04_refreshed_future_window_never_immediate are met and the refreshed info waits; the
+   same window with the stale selected time left in (not well-formed) is due at once: why well-formedness
+   is demanded of what updateARI produces *)
+Example C04_ex_refreshed_future_window :
+  let old := Ari (Some (8 * day)) (Some (7 * day)) (Some (9 * day)) in
+  let i := with_ari (ex false (0, 1) no_ari) (refresh_ari old (ex_win 30 32)) in let now := 10 * day in
+  ari_wfb old = true /\ ari_wfb (ex_win 30 32) = true /\ refresh_ari old (ex_win 30 32) = ex_win 30 32 /\
+  refresh_ari old (Ari None (Some (7 * day)) (Some (9 * day))) = old /\
+  wf i /\ admissible i 0 /\ admissible i 172798 /\ now + interval i <= 30 * day /\
+  3 * remaining i now >= 1 * lifetime i + 3 * eps (lifetime i) /\
+  20 * remaining i now >= lifetime i + 20 * eps (lifetime i) /\ remaining i now >= 5 * interval i /\
+  decide scale_floor i 0 now = Wait /\ decide scale_floor i 172798 now = Wait.
+Proof. cbv zeta. ex_solve. Qed.
+Example C04_stale_selected_time_renews :
+  ari_wfb (ari stale_inputs) = false /\ wf stale_inputs /\ admissible stale_inputs 0 /\
+  decide scale_floor stale_inputs 0 (10 * 86400 * second) = Renew /\
+  decide scale_floor (with_ari stale_inputs
+      (refresh_ari (Ari (Some (8 * 86400 * second)) (Some (7 * 86400 * second)) (Some (9 * 86400 * second)))
+                   (Ari None (Some (30 * 86400 * second)) (Some (32 * 86400 * second))))) 0 (10 * 86400 * second) = Wait.
+Proof. exact stale_selected_time_renews. Qed.
